@@ -60,10 +60,10 @@ def py_fname(k):
 
 
 MAIN_KEYS = {
-    'str': ['a', 'b', 'k1', 'x_y', 'K', 'Q 7', 'z.z', 'p-q', '2024-01-15', 'TASK_1', 'K_K_a', 'L' * 245 + 'a', 'L' * 245 + 'b'],   # two long keys with a long common prefix (still below NAME_MAX); two keys that contain the entry prefix 'K_' themselves
+    'str': ['a', 'b', 'k1', 'x_y', 'K', 'Q 7', 'z.z', 'p-q', '2024-01-15', 'TASK_1', 'K_K_a', 'k[0]', 'L' * 245 + 'a', 'L' * 245 + 'b'],   # two long keys with a long common prefix (still below NAME_MAX); two keys that contain the entry prefix 'K_' themselves
     'int': [7, 12, -3, 0],
     'ident': ['a', 'b', 'k1', 'x_y', 'K', 'Q7', 'TASK_1', 'K_K_a'],
-    'tuple': [(1, 2), ('a', 3), (5,), (), ('x', 'y')],
+    'tuple': [(1, 2), ('a', 3), (5,), (), ('x', 'y'), ('x[1]', 2)],      # (one key whose text holds a bracket expression, as glob patterns do)
     'bytes': [pickle.dumps(x) for x in [(1,), 'a', (2, 'b')]],
 }
 ALIAS_KEYS = [1, '1', 'a-b', 'a_b', (1, 2), '(1, 2)', -3, '_3']
@@ -663,12 +663,51 @@ def _analyse(prop, trs):
     return divs, viols, tags, len(nontrivial)
 
 
+def slash_probe(a):
+    """keys that contain the path separator (path-like arguments under a string keymap, urls): a dir_archive names one directory per key
+    after the key's text.  Monitor only (the model has flat names): the archive against a dict, step by step."""
+    import klepto.archives as ka
+    idx = a
+    codec, opts = [('pickle', {}), ('json', dict(protocol='json')), ('pickle', dict(compression=3))][idx % 3]
+    cached = (idx // 3) % 2 == 1
+    tmp = scratch_dir('kbs'); viol = []
+    try:
+        A = ka.dir_archive(os.path.join(tmp, 'd'), cached=cached, **opts)
+        H = A.archive if cached else A
+        ref = {}
+        steps = [('set', 'data/run1.csv', 1), ('set', 'plain', 3), ('set', 'data/run2.csv', 2), ('set', 'http://host/x', 4), ('del', 'data/run1.csv', None), ('set', 'data', 5)]
+        for i, (op, k, v) in enumerate(steps):
+            try:
+                if op == 'set': H[k] = v; ref[k] = v
+                else: del H[k]; del ref[k]
+                got = dict(len=len(H), keys=sorted(map(str, H.keys())), items=sorted((str(k_), v_) for k_, v_ in H.items()),
+                           has=[k_ in H for k_ in sorted(ref)], get=[H.get(k_) for k_ in sorted(ref)])
+            except Exception as e:
+                got = 'EXC %s: %s' % (type(e).__name__, str(e)[:60])
+            want = dict(len=len(ref), keys=sorted(ref), items=sorted(ref.items()), has=[True] * len(ref), get=[ref[k_] for k_ in sorted(ref)])
+            if got != want:
+                viol.append(dict(prop='C03', i=i, sig=dict(backend='dir', codec=codec, cause='none', what='slash-key', op=op),
+                                 msg='dir archive (%s): after %r of the key %r (keys so far %r) the archive reads %r, a dict %r' % (codec, op, k, sorted(ref), got, want),
+                                 cfg=dict(slash=idx), ops=[]))
+                break
+        return dict(viol=viol, err=None)
+    except Exception:
+        import traceback
+        return dict(viol=viol, err=traceback.format_exc()[-1000:])
+    finally:
+        rm_rf(tmp)
+
+
 def explore(prop, tier):
     with Pool(NPROC) as p:
         trs = p.map(work, [(tier, i) for i in range(NTRACES[tier])], chunksize=4)
+        sl = p.map(slash_probe, list(range(6)))
     errors = [t['err'] for t in trs if t['err']]
     trs = [t for t in trs if not t['err']]
     divs, viols, tags, nontriv = _analyse(prop, trs)
+    errors += [o['err'] for o in sl if o['err']]
+    viols = viols + [v for o in sl for v in o['viol']]
+    tags = dict(tags); tags['slash-key-probe'] = len(sl)
     hist = collections.Counter('%s/%s%s%s' % (t['cfg']['kind'], t['cfg']['codec'], json.dumps(t['cfg']['opts'], sort_keys=True) if t['cfg']['opts'] else '',
                                               '+cache' if t['cfg']['cached'] else '') for t in trs)
     return dict(suite='backend', traces=len(trs), evaluations=sum(len(t['recs']) for t in trs), distinct_nontrivial=nontriv,
@@ -689,6 +728,10 @@ def _deser_ops(o):
 
 
 def replay(prop, obj):
+    if isinstance(obj.get('cfg'), dict) and 'slash' in obj['cfg']:
+        o = slash_probe(obj['cfg']['slash'])
+        if o['err']: raise NoVerdict(o['err'])
+        return dict(violations=[dict(prop='C03', sig=v['sig'], msg=v['msg'], i=v['i']) for v in o['viol']], divergence=None)
     ops = _deser_ops(obj['ops'])
     tr = run_trace(obj['cfg'], ops)
     if tr['err']: raise NoVerdict(tr['err'])
@@ -699,6 +742,9 @@ def replay(prop, obj):
 
 def shrink_and_save(prop, v):
     cfg = v['cfg']
+    if 'slash' in cfg:
+        return write_replay(prop, 'violation', dict(suite='backend', property=prop, cfg=cfg, signature=v['sig'], message=v['msg'],
+                                                     how_to_replay='cd /verif && ./check C03 --replay <this file>'))
     def fails(ops):
         tr = run_trace(cfg, ops)
         return (not tr['err']) and any(x['sig'] == v['sig'] for x in monitor(tr))
